@@ -93,6 +93,7 @@ def run_settle(ndeals, cut_index=False):
         def cut_load(E2, call):
             nm = 'load%d' % len([1 for _ in E2.ctx.env.setdefault('loads', [])])
             E2.ctx.env['loads'].append(nm)
+            E2.ctx.env['last_loaded_id'] = zv(call.args[3])
             ch = E2.ctx.choose(4, nm)
             ty = type_args(call.dest_ty)[0] if call.dest_ty else 'state::LoadDealState'
             if ch == 0:
@@ -120,6 +121,7 @@ def run_settle(ndeals, cut_index=False):
             E2.ctx.assume(pay >= 0)
             done = E2.ctx.fresh_bool(nm + '.completed')
             rem = E2.ctx.fresh_bool(nm + '.remove')
+            E2.ctx.env['updated'] = E2.ctx.env.get('updated', []) + [dict(did=E2.ctx.env.get('last_loaded_id'), remove=rem)]
             return ok(StructV('tuple', {0: BigV(0), 1: BigV(pay), 2: done, 3: rem}), call.dest_ty)
         E.cuts['State::get_active_deal_or_process_timeout'] = cut_load
         if cut_index:
@@ -149,6 +151,24 @@ def props_settle(E, res):
         P.append(('the only value leaving the market while settling goes to the burnt-funds actor', b_and(s.to.proto == 0, s.to.key == 99, zv(s.method) == 0)))
     sent = sum(s.value for s in burns) if burns else 0
     P.append(('every amount slashed from timed-out proposals in the batch is burnt: nothing is stranded in the market actor', sent == total))
+    # a settled deal that continues is written back stamped with the settlement epoch: the first update retires the deal's
+    # pending-proposal entry (C07 contract of process_deal_update), and the cron tick treats an unstamped deal as one whose
+    # entry must still exist - an unstamped settled deal would make every later tick fail
+    from .market_common import F
+    ST, DPF, DSF = F()
+    sm = heap_get(E, fget(E, rt.state, ST['states'], CID))
+    for u in env.get('updated', []):
+        if implied(ctx, u['remove'] if is_sym(u['remove']) else z3.BoolVal(bool(u['remove']))):
+            continue
+        if not isinstance(sm, MapM) or u['did'] is None:
+            P.append(('a settled deal that continues is written back', False))
+            continue
+        pres, val = final_lookup(E, sm, ('int', u['did']))
+        if pres is not True or val is None:
+            P.append(('a settled deal that continues is written back stamped with the settlement epoch (the cron tick relies on the stamp)', False))
+        else:
+            P.append(('a settled deal that continues is written back stamped with the settlement epoch (the cron tick relies on the stamp)',
+                      fget(E, E.deref(val), DSF['last_updated_epoch'], 'i64').v == rt.epoch))
     return P
 
 
